@@ -213,6 +213,18 @@ impl TypeCollector {
         visitor: &V,
         config: &GenerateConfig,
     ) -> Vec<StructContext> {
+        #[cfg(feature = "verif-hooks")]
+        let used_structs_owned: Vec<(String, StructInfo)> = crate::verif_hooks::permute(
+            "S4.structs",
+            used_structs
+                .iter()
+                .map(|(k, v)| (k.clone(), v.clone()))
+                .collect(),
+            |kv| kv.0.clone(),
+        );
+        #[cfg(feature = "verif-hooks")]
+        let used_structs: Vec<(&String, &StructInfo)> =
+            used_structs_owned.iter().map(|(k, v)| (k, v)).collect();
         used_structs
             .iter()
             .map(|(name, struct_info)| {
